@@ -144,6 +144,18 @@ func (r *renderer) visitSet(s *Set, named bool) {
 	}
 }
 
+// NamedSets lists every named provider set declared by the program (as rendered).
+func NamedSets(prog *Program) []*Set {
+	r := &renderer{prog: prog, alias: map[*Pkg]string{}, seenT: map[*Type]bool{}, seenF: map[*Func]bool{}, seenS: map[*Set]bool{}}
+	for _, inj := range prog.Injectors {
+		r.visitItems(inj.Items)
+	}
+	for _, s := range prog.ExtraSets {
+		r.visitSet(s, true)
+	}
+	return r.sets
+}
+
 // Render produces the files of the case (relative path -> content).
 // withDriver adds driver.go to the root package.
 func Render(prog *Program, withDriver bool) map[string]string {
